@@ -30,6 +30,8 @@ class Include:
             # the same nesting with file names that contain one another (stdio.asm > io.asm > o.asm) and that share a prefix
             out.append({"id": "nested-names/%s/contained" % p, "k": "nested", "p": p, "names": ["stdio.asm", "io.asm", "o.asm"],
                         "bounded": "%s in 3 nested files whose names contain one another" % p})
+            out.append({"id": "nested-names/%s/subdir" % p, "k": "nested", "p": p, "names": ["lib/mid.asm", "lib/leaf.asm", "lib/sub/end.asm"],
+                        "bounded": "%s in 3 nested files in sub-directories (names relative to the working directory)" % p})
             out.append({"id": "nested-names/%s/prefix" % p, "k": "nested", "p": p, "names": ["defs.asm", "defs.asm.inc", "defs.as"],
                         "bounded": "%s in 3 nested files whose names are prefixes of one another" % p})
             out.append({"id": "middle/%s" % p, "k": "middle", "p": p, "bounded": "%s with the middle third included" % p})
@@ -306,6 +308,8 @@ class IncludeContracts:
 
         def apply_read(v_, interp, func, args):
             fn = args["self"].fields["file_name"]
+            if not isinstance(fn, _FileName):
+                raise sym.Undecided("process_mnemonics: the file that is read is not named by the INCLUDE statement's operand alone")
             args["self"].fields["buffer"] = _FileLines(fn.fid)
             return None
         v.contract("cocoasm/virtualfiles/source_file.py::SourceFile.read_file", CallSpec(apply_read))
@@ -313,7 +317,7 @@ class IncludeContracts:
         def apply_parse(v_, interp, func, args):
             c = args["contents"]
             if not isinstance(c, _FileLines):
-                raise sym.EngineError("parse called on something that is not the included file's buffer")
+                raise sym.Undecided("process_mnemonics: parse is called on something that is not the buffer of the file named on the INCLUDE statement")
             return SeqList(PARSED(sym._z(c.fid)))
         v.contract(PKEY + "parse", CallSpec(apply_parse))
 
